@@ -10,6 +10,7 @@ import (
 	"os"
 	"sort"
 	"strings"
+	"sync"
 
 	"github.com/dave/jennifer/jen"
 
@@ -26,6 +27,42 @@ type Op struct {
 	Flag  bool      // noformat value / write fault / fs fault
 	Code  term.Node // for fadd (must be *Stmt), rcode, rplain
 	Run   func() Obs // for ext (optional): the implementation-side observation of this element
+	// MapKey (importnames, optional): operations with the same non-empty MapKey pass THE SAME Go
+	// map object to File.ImportNames (the object is made from the Pairs of the first such
+	// operation that is executed and later operations reuse it as it is, see MapTable).  The
+	// model is unaffected (maps are values there): Sexp prints an ordinary importnames.
+	MapKey string
+}
+
+// MapTable holds the map objects that importnames operations with a MapKey share.  A World
+// has its own table; Worlds that are given the same table (World.Maps) share the objects.
+type MapTable struct {
+	mu sync.Mutex
+	m  map[string]map[string]string
+}
+
+func NewMapTable() *MapTable { return &MapTable{m: map[string]map[string]string{}} }
+
+// Get returns the object of key, making it from pairs on first use.
+func (t *MapTable) Get(key string, pairs [][2]string) map[string]string {
+	t.mu.Lock()
+	defer t.mu.Unlock()
+	m, ok := t.m[key]
+	if !ok {
+		m = map[string]string{}
+		for _, p := range pairs {
+			m[p[0]] = p[1]
+		}
+		t.m[key] = m
+	}
+	return m
+}
+
+// Lookup returns the object of key (nil if no operation with that key has been executed).
+func (t *MapTable) Lookup(key string) map[string]string {
+	t.mu.Lock()
+	defer t.mu.Unlock()
+	return t.m[key]
 }
 
 type History []Op
@@ -155,10 +192,12 @@ type World struct {
 	// SaveDir maps the symbolic save paths of a history to real paths.
 	SavePath func(sym string) string
 	groups   map[*term.Group]*jen.Group // group targets of rcode/rplain (grouptarget.go)
+	// Maps: the map objects shared by importnames operations that carry a MapKey.
+	Maps *MapTable
 }
 
 func NewWorld() *World {
-	return &World{Files: map[int]*jen.File{}, B: term.NewBuilder(), SavePath: func(s string) string { return s }}
+	return &World{Files: map[int]*jen.File{}, B: term.NewBuilder(), SavePath: func(s string) string { return s }, Maps: NewMapTable()}
 }
 
 // Exec runs the history on the implementation and returns the observations.
@@ -191,6 +230,13 @@ func (w *World) Exec(h History) (obs []Obs) {
 		case "importalias":
 			f.ImportAlias(op.A, op.B)
 		case "importnames":
+			if op.MapKey != "" {
+				if w.Maps == nil {
+					w.Maps = NewMapTable()
+				}
+				f.ImportNames(w.Maps.Get(op.MapKey, op.Pairs))
+				break
+			}
 			m := map[string]string{}
 			for _, p := range op.Pairs {
 				m[p[0]] = p[1]
